@@ -246,20 +246,28 @@ func newEventPool(capacity, avgEventSize int) *eventPool {
 const maxTries = 3
 
 func (p *eventPool) get(size int) *Event {
+	verifPoolAtom()
 	x := (p.getCounter.Inc() - 1) % int64(p.capacity)
+	verifPoolAtomTrace(vpStdClaim, p, int64(size), x, 0)
 	var tries int
 	for {
 		if x < p.backCounter.Load() {
 			// fast path
+			verifPoolAtom()
 			if p.free1[x].CAS(true, false) {
 				break
 			}
+			verifPoolAtomTrace(vpStdCas, p, int64(size), x, 0)
+			verifPoolAtom()
 			if p.free1[x].CAS(true, false) {
 				break
 			}
+			verifPoolAtomTrace(vpStdCas, p, int64(size), x, 0)
+			verifPoolAtom()
 			if p.free1[x].CAS(true, false) {
 				break
 			}
+			verifPoolAtomTrace(vpStdCas, p, int64(size), x, 0)
 		}
 		tries++
 		if tries%maxTries != 0 {
@@ -272,18 +280,34 @@ func (p *eventPool) get(size int) *Event {
 			})
 
 			// slowest path
+			verifPoolAtom()
 			p.slowWaiters.Inc()
+			verifPoolAtomTrace(vpStdWInc, p, int64(size), x, 0)
+			verifPoolGate(vgStdBeforeWait, p, int64(size))
 			p.getMu.Lock()
+			verifPoolTrace(vpStdLock, p, int64(size), x, 0)
+			verifPoolTrace(vpStdRegister, p, int64(size), x, 0)
 			p.getCond.Wait()
+			verifPoolTrace(vpStdWake, p, int64(size), x, 0)
+			verifPoolTrace(vpStdUnlock, p, int64(size), x, 0)
 			p.getMu.Unlock()
+			verifPoolAtom()
 			p.slowWaiters.Dec()
+			verifPoolAtomTrace(vpStdWDec, p, int64(size), x, 0)
 			tries = 0
 		}
 	}
+	verifPoolAtomTrace(vpStdCas, p, int64(size), x, 1)
+	verifPoolGate(vgStdAfterCas, p, int64(size))
 	event := p.events[x]
 	p.events[x] = nil
+	verifPoolTrace(vpStdTake, p, int64(size), x, verifEventID(event))
+	verifPoolAtom()
 	p.free2[x].Store(false)
+	verifPoolAtomTrace(vpStdFree2, p, int64(size), x, 0)
+	verifPoolAtom()
 	p.inUseEvents.Inc()
+	verifPoolAtomTrace(vpStdInUseInc, p, int64(size), x, 0)
 	event.stage = eventStageInput
 	event.Size = size
 	return event
@@ -291,19 +315,27 @@ func (p *eventPool) get(size int) *Event {
 
 func (p *eventPool) back(event *Event) {
 	event.stage = eventStagePool
+	verifPoolAtom()
 	x := (p.backCounter.Inc() - 1) % int64(p.capacity)
+	verifPoolAtomTrace(vpStdBackClaim, p, verifEventID(event), x, 0)
 	var tries int
 	for {
 		// fast path
+		verifPoolAtom()
 		if p.free2[x].CAS(false, true) {
 			break
 		}
+		verifPoolAtomTrace(vpStdBackCas, p, verifEventID(event), x, 0)
+		verifPoolAtom()
 		if p.free2[x].CAS(false, true) {
 			break
 		}
+		verifPoolAtomTrace(vpStdBackCas, p, verifEventID(event), x, 0)
+		verifPoolAtom()
 		if p.free2[x].CAS(false, true) {
 			break
 		}
+		verifPoolAtomTrace(vpStdBackCas, p, verifEventID(event), x, 0)
 		tries++
 		if tries%maxTries != 0 {
 			// slow path
@@ -314,11 +346,19 @@ func (p *eventPool) back(event *Event) {
 			tries = 0
 		}
 	}
+	verifPoolAtomTrace(vpStdBackCas, p, verifEventID(event), x, 1)
 	p.resetEvent(event)
 	p.events[x] = event
+	verifPoolTrace(vpStdBackPut, p, verifEventID(event), x, 0)
+	verifPoolAtom()
 	p.free1[x].Store(true)
+	verifPoolAtomTrace(vpStdBackFree1, p, verifEventID(event), x, 0)
+	verifPoolAtom()
 	p.inUseEvents.Dec()
+	verifPoolAtomTrace(vpStdBackDec, p, verifEventID(event), x, 0)
+	verifPoolAtom()
 	p.getCond.Broadcast()
+	verifPoolAtomTrace(vpStdBackBcast, p, verifEventID(event), x, 0)
 }
 
 func (p *eventPool) wakeupWaiters() {
@@ -328,12 +368,19 @@ func (p *eventPool) wakeupWaiters() {
 		}
 
 		time.Sleep(p.wakeupInterval)
+		verifPoolAtom()
 		waiters := p.slowWaiters.Load()
+		verifPoolAtomTrace(vpStdTickW, p, waiters, 0, 0)
+		verifPoolAtom()
 		eventsAvailable := p.inUseEvents.Load() < int64(p.capacity)
+		verifPoolAtomTrace(vpStdTickA, p, verifBool(eventsAvailable), 0, 0)
 		if waiters > 0 && eventsAvailable {
 			// There are events in the pool, wake up waiting goroutines.
+			verifPoolAtom()
 			p.getCond.Broadcast()
+			verifPoolAtomTrace(vpStdTickFire, p, 0, 0, 0)
 		}
+		verifPoolTrace(vpStdTickEnd, p, 0, 0, 0)
 	}
 }
 
@@ -433,16 +480,22 @@ func (p *lowMemoryEventPool) get(size int) *Event {
 	getPool := p.pools[index]
 
 again:
+	verifPoolAtom()
 	inUse := int(p.inUseEvents.Inc())
+	verifPoolAtomTrace(vpLmInc, p, int64(size), int64(inUse), 0)
+	verifPoolGate(vgLmAfterInc, p, int64(size))
 	// Fast path: we're not over the capacity.
 	if inUse <= p.capacity {
+		verifPoolTrace(vpLmAdmit, p, int64(size), int64(inUse), 0)
 		e := getPool.Get().(*Event)
 		e.Size = size
 		return e
 	}
 
 	// Slow path: wait until we fit in the capacity.
+	verifPoolAtom()
 	p.inUseEvents.Dec()
+	verifPoolAtomTrace(vpLmDec, p, int64(size), 0, 0)
 
 	// Run heartbeat to periodically wake up goroutines that are waiting.
 	p.runHeartbeatOnce.Do(func() {
@@ -450,24 +503,43 @@ again:
 	})
 
 	// Wait until we fit in the capacity.
+	verifPoolAtom()
 	p.slowWaiters.Inc()
+	verifPoolAtomTrace(vpLmWInc, p, int64(size), 0, 0)
 	p.getCond.L.Lock()
+	verifPoolTrace(vpLmLock, p, int64(size), 0, 0)
+	verifAvail := true
+	verifPoolAtom()
 	if !p.eventsAvailable() {
+		verifAvail = false
+		verifPoolAtomTrace(vpLmCheck, p, int64(size), 0, 0)
+		verifPoolGate(vgLmBeforeWait, p, int64(size))
+		verifPoolTrace(vpLmRegister, p, int64(size), 0, 0)
 		p.getCond.Wait()
+		verifPoolTrace(vpLmWake, p, int64(size), 0, 0)
 	}
+	verifPoolAtomTraceIf(verifAvail, vpLmCheck, p, int64(size), 1, 0)
+	verifPoolTrace(vpLmUnlock, p, int64(size), 0, 0)
 	p.getCond.L.Unlock()
+	verifPoolAtom()
 	p.slowWaiters.Dec()
+	verifPoolAtomTrace(vpLmWDec, p, int64(size), 0, 0)
 	goto again
 }
 
 func (p *lowMemoryEventPool) back(event *Event) {
 	index := poolIndex(event.Size)
+	verifSize := verifEventSize(event)
 	backPool := p.pools[index]
 
 	event.reset()
 	backPool.Put(event)
+	verifPoolAtom()
 	p.inUseEvents.Dec()
+	verifPoolAtomTrace(vpLmBackDec, p, verifSize, 0, 0)
+	verifPoolAtom()
 	p.getCond.Broadcast()
+	verifPoolAtomTrace(vpLmBackBcast, p, verifSize, 0, 0)
 }
 
 func poolIndex(size int) int {
@@ -501,12 +573,19 @@ func (p *lowMemoryEventPool) wakeupWaiters() {
 		}
 
 		time.Sleep(p.wakeupInterval)
+		verifPoolAtom()
 		waiters := p.slowWaiters.Load()
+		verifPoolAtomTrace(vpLmTickW, p, waiters, 0, 0)
+		verifPoolAtom()
 		eventsAvailable := p.eventsAvailable()
+		verifPoolAtomTrace(vpLmTickA, p, verifBool(eventsAvailable), 0, 0)
 		if waiters > 0 && !eventsAvailable {
 			// There are events in the pool, wake up waiting goroutines.
+			verifPoolAtom()
 			p.getCond.Broadcast()
+			verifPoolAtomTrace(vpLmTickFire, p, 0, 0, 0)
 		}
+		verifPoolTrace(vpLmTickEnd, p, 0, 0, 0)
 	}
 }
 
